@@ -1841,8 +1841,7 @@ func (ls *LState) PCall(nargs, nret int, errfunc *LFunction) (err error) {
 				err = rcv.(*ApiError)
 			}
 			if errfunc != nil {
-				ls.Push(errfunc)
-				ls.Push(err.(*ApiError).Object)
+				errobj := err.(*ApiError).Object
 				ls.Panic = panicWithoutTraceback
 				defer func() {
 					ls.Panic = oldpanic
@@ -1865,6 +1864,9 @@ func (ls *LState) PCall(nargs, nret int, errfunc *LFunction) (err error) {
 						ls.reg.SetTop(base)
 					}
 				}()
+				// pushed under the recover above: with a full registry these pushes fail too
+				ls.Push(errfunc)
+				ls.Push(errobj)
 				ls.Call(1, 1)
 				err = newApiError(ApiErrorError, ls.Get(-1))
 			} else if len(err.(*ApiError).StackTrace) == 0 {
